@@ -25,7 +25,13 @@ def gen_dep_type(rng, w, fids, utab, corpus_enc, depth=1, allow_combo=True):
     r = rng.random()
     if allow_combo and depth > 0 and r < 0.22:
         kind = rng.choice([2, 2, 3])
-        return [kind] + [gen_dep_type(rng, w, fids, utab, corpus_enc, depth - 1, depth > 1) for _ in range(2)]
+        members = [gen_dep_type(rng, w, fids, utab, corpus_enc, depth - 1, depth > 1) for _ in range(2)]
+        if depth > 1 and rng.random() < 0.5:
+            # an inner combination next to a plain class: no value-dependent type among the direct members
+            members = [[rng.choice([2, 3])] + [gen_dep_type(rng, w, fids, utab, corpus_enc, 0, False) for _ in range(2)],
+                       [0, rng.choice([INT, STR, TUPLE])]]
+            rng.shuffle(members)
+        return [kind] + members
     r = rng.random()
     if r < 0.3:
         pool = rng.choice([[1, 2, 3, 7], ["a", "ab", "b"], [1, 2, 3, 7], [1, "a", 2]])
@@ -152,7 +158,7 @@ def gen_dep_program(rng, steer=None):
             pos = []
             for p in range(npos):
                 if (p == dep_pos and rng.random() < 0.65) or rng.random() < 0.15:
-                    pos.append(gen_dep_type(rng, w, fids, utab, corpus_enc))
+                    pos.append(gen_dep_type(rng, w, fids, utab, corpus_enc, depth=rng.choice([1, 1, 2])))
                 else:
                     pos.append([0, rng.choice(static_pool)])
             defs.append({"id": i, "pos": pos, "npos_req": npos, "kw": [], "prio": rng.choice([0, 0, 0, 1])})
